@@ -59,6 +59,7 @@ type Report struct {
 	nViol       int64
 	violKeys    map[string]int64
 	knownKeys   map[string]bool
+	unreproKeys map[string]int64
 	unrepro     int64
 	samples     []any
 	sampleCap   int
@@ -71,7 +72,7 @@ type Report struct {
 }
 
 func NewReport(prop, tier string, seed int64) *Report {
-	return &Report{Prop: prop, Tier: tier, Seed: seed, Start: time.Now(), violKeys: map[string]int64{}, Extra: map[string]any{}, sampleCap: 12, Exhaustive: true}
+	return &Report{Prop: prop, Tier: tier, Seed: seed, Start: time.Now(), violKeys: map[string]int64{}, unreproKeys: map[string]int64{}, Extra: map[string]any{}, sampleCap: 12, Exhaustive: true}
 }
 
 func (r *Report) Sample(s any) {
@@ -140,6 +141,13 @@ func (r *Report) Violation(c Case, recheck func() bool) {
 		return
 	}
 	known := r.knownKeys[c.Key]
+	if r.unreproKeys[c.Key] >= 3 {
+		// this key failed to reproduce 3 times already: count, do not re-execute again
+		r.unrepro++
+		r.unreproKeys[c.Key]++
+		r.mu.Unlock()
+		return
+	}
 	if r.violKeys[c.Key] >= 3 {
 		r.violKeys[c.Key]++
 		r.nViol++
@@ -155,6 +163,7 @@ func (r *Report) Violation(c Case, recheck func() bool) {
 			if !recheck() {
 				r.mu.Lock()
 				r.unrepro++
+				r.unreproKeys[c.Key]++
 				if len(r.Notes) < 100 {
 					r.Notes = append(r.Notes, "unreproduced (not reported): "+c.Key+" "+c.Observed)
 				}
